@@ -420,6 +420,11 @@ func settle(err error) error {
 	if _, ok := err.(*Unsettled); ok {
 		return err
 	}
+	if strings.Contains(err.Error(), "bind: address already in use") {
+		// another check running at the same time took the port between two uses (port ranges are
+		// per worker slot of ONE driver): nothing about the code under test
+		return &Unsettled{Why: "a port of this shard was taken by another process: " + err.Error()}
+	}
 	if timeBound.MatchString(err.Error()) {
 		if sat, l := Saturated(); sat {
 			return &Unsettled{Why: fmt.Sprintf("a time bound was hit while the machine was saturated (load %.0f on %d CPUs), which decides nothing: %s", l, runtime.NumCPU(), err.Error())}
